@@ -28,6 +28,7 @@ func runC17(r *engine.Run) {
 	r.Rule("ERR-dropped", "the error result of every repository operation (trie, node store, storage adapter/batcher methods) called here is looked at - compared, returned or stored; deliberate drops are an explicit table with reasons")
 	r.Rule("DOM-nodefound", "a node store reports a node as found only for what it holds: MemoryNodeDB.getNode returns a nil error only where its map lookup's found flag tested true; PNodeDB.GetNode decodes only where the fetched bytes tested non-empty (otherwise ErrNodeNotFound)")
 	r.Rule("ORDER-publish", "in insertForeignNode (the per-node step of MergeDB) the node enters the trie's cache and change collector only after PutNode returned a nil error (dominance + error fact): a failed store write is not masked by the cache")
+	r.Rule("WHO-tombstones", "see C03: the layered store's lookups and iteration never consult its delete tombstones (a donor that hides marked nodes from Iterate cannot repair the tries that need them)")
 	r.NotDec = append(r.NotDec, "exactness of the reported key set for every removal subset")
 	errGetNode(r)
 	depCount(r)
@@ -46,6 +47,7 @@ func runC17(r *engine.Run) {
 	errGuard(r, "ERR-guard", "ERR-dropped", funcsOfPkg(r, pkgUtil), 20)
 	agreeSentinelWrap(r, "AGREE-unwrapped")
 	whoLimit(r, "WHO-limit")
+	whoTombstones(r, "WHO-tombstones")
 }
 
 // resultValue resolves the i-th result of ret through a named-result cell
